@@ -16,6 +16,9 @@ pub enum FileCase {
     /// generated: n adjacent 1-base values on one chromosome of length n+4, items_per_slot ips
     WigBig { n: u32, opts: Opts },
     BedBig { n: u32, opts: Opts },
+    /// generated: n chromosomes (names sort in input order) with 1-3 items each
+    WigMany { n: u32, opts: Opts },
+    BedMany { n: u32, opts: Opts },
 }
 
 pub fn expand(c: &FileCase) -> FileCase {
@@ -59,8 +62,59 @@ pub fn expand(c: &FileCase) -> FileCase {
                 opts: opts.clone(),
             })
         }
+        FileCase::WigMany { n, opts } => FileCase::Wig(WigCase {
+            chroms: (0..*n)
+                .map(|ci| WChrom {
+                    name: format!("m{:04}", ci),
+                    len: L,
+                    items: (0..(1 + ci % 3)).map(|i| WItem { s: 2 * i + ci % 5, e: 2 * i + ci % 5 + 1 + (ci % 2), vb: ((ci % 9) as f32 + 0.5 * i as f32).to_bits() }).collect(),
+                })
+                .collect(),
+            extra_sizes: vec![],
+            allow_ooo: false,
+            opts: opts.clone(),
+        }),
+        FileCase::BedMany { n, opts } => FileCase::Bed(BedCase {
+            chroms: (0..*n)
+                .map(|ci| BChrom {
+                    name: format!("m{:04}", ci),
+                    len: L,
+                    items: (0..(1 + ci % 3)).map(|i| BItem { s: i + ci % 5, e: i + ci % 5 + 3 + (ci % 4), rest: format!("r{}_{}", ci, i) }).collect(),
+                })
+                .collect(),
+            extra_sizes: vec![],
+            allow_ooo: false,
+            autosql: None,
+            opts: opts.clone(),
+        }),
         other => other.clone(),
     }
+}
+
+/// many-chromosome files: more chromosomes than the parallel source queues at once (6, 8) and
+/// than the pipeline's channels hold (130), through every source, both passes, two runtimes
+fn many_cases(bed: bool, quick: bool) -> Vec<FileCase> {
+    let mut v = vec![];
+    let ns: &[u32] = if quick { &[6, 130] } else { &[6, 8, 101, 102, 130, 260] };
+    for &n in ns {
+        for src in [SrcKind::Iter, SrcKind::SerialText, SrcKind::ParallelFile] {
+            for two_pass in [false, true] {
+                for rt in [Rt::Current, Rt::Multi(4)] {
+                    for (ips, zoom) in [(1024u32, Zoom::AutoDefault), (1, Zoom::Manual(vec![2]))] {
+                        let mut o = Opts::base();
+                        o.src = src;
+                        o.two_pass = two_pass;
+                        o.rt = rt;
+                        o.ips = ips;
+                        o.zoom = zoom;
+                        o.bs = 3;
+                        v.push(if bed { FileCase::BedMany { n, opts: o } } else { FileCase::WigMany { n, opts: o } });
+                    }
+                }
+            }
+        }
+    }
+    v
 }
 
 // ---------------------------------------------------------------------------------------------
@@ -189,7 +243,7 @@ pub fn wig_family(tier: Tier) -> Box<dyn Iterator<Item = FileCase>> {
             big.push(FileCase::WigBig { n, opts: o });
         }
     }
-    Box::new(a.chain(b).chain(big.into_iter()))
+    Box::new(a.chain(b).chain(big.into_iter()).chain(many_cases(false, quick).into_iter()))
 }
 
 pub fn bed_family(tier: Tier) -> Box<dyn Iterator<Item = FileCase>> {
@@ -227,7 +281,7 @@ pub fn bed_family(tier: Tier) -> Box<dyn Iterator<Item = FileCase>> {
         o.zoom = Zoom::Manual(vec![16384]);
         big.push(FileCase::BedBig { n, opts: o });
     }
-    Box::new(a.chain(b).chain(big.into_iter()))
+    Box::new(a.chain(b).chain(big.into_iter()).chain(many_cases(true, quick).into_iter()))
 }
 
 /// zoom-focused option list for C07/C08
